@@ -35,6 +35,8 @@ func pinOverlay(dir string) string {
 	}
 	if strings.Contains(dir, "overlay-simrt") {
 		instrumentForSimrt(dir, replace)
+	} else {
+		pinCachedVotes(dir, replace)
 	}
 	ov, _ := json.Marshal(map[string]any{"Replace": replace})
 	out := filepath.Join(dir, "overlay.json")
@@ -42,4 +44,58 @@ func pinOverlay(dir string) string {
 		fatal2("%v", err)
 	}
 	return out
+}
+
+// pinCachedVotes pins the one race inside the finality engine that changes what a
+// node does: ApplyBlock of the first block of an epoch hands the previous
+// checkpoint to the cached-vote goroutine through a buffered channel and goes on;
+// whether the cached votes (which may justify that checkpoint) or the block are
+// applied first decides the source of the node's own next vote. Both orders are
+// legal. The sequential engines pin "cached votes first, validators in key
+// order" by calling the loop's body in place; the scheduled (simrt) builds are
+// not pinned, there the plan's tape decides the order.
+func pinCachedVotes(dir string, replace map[string]string) {
+	src := filepath.Join(repoPath, "protocol", "casper", "apply_block.go")
+	b, err := os.ReadFile(src)
+	if err != nil {
+		return
+	}
+	s := string(b)
+	const send = "c.newEpochCh <- block.PreviousBlockHash"
+	const imp = "import (\n\t\"fmt\"\n"
+	av, err := os.ReadFile(filepath.Join(repoPath, "protocol", "casper", "auth_verification.go"))
+	if err != nil || strings.Count(s, send) != 1 || !strings.Contains(s, imp) || strings.Contains(s, "\t\"sort\"\n") ||
+		!strings.Contains(string(av), "func (c *Casper) authCachedMsg(msg *ValidCasperSignMsg, msgKey string) error") ||
+		!strings.Contains(string(av), "func verificationCacheKey(") {
+		return
+	}
+	s = strings.Replace(s, send, "c.verifPinnedCachedMsgs(block.PreviousBlockHash)", 1)
+	s = strings.Replace(s, imp, "import (\n\t\"fmt\"\n\t\"sort\"\n", 1)
+	s += `
+// verifPinnedCachedMsgs is added by the verification build overlay (not part of the
+// repository): the body of authVerificationLoop for one checkpoint, run in place.
+func (c *Casper) verifPinnedCachedMsgs(blockHash bc.Hash) {
+	validators, err := c.validators(&blockHash)
+	if err != nil {
+		return
+	}
+	keys := make([]string, 0, len(validators))
+	for k := range validators {
+		keys = append(keys, k)
+	}
+	sort.Strings(keys)
+	for _, k := range keys {
+		key := verificationCacheKey(blockHash, validators[k].PubKey)
+		data, ok := c.verificationCache.Get(key)
+		if !ok {
+			continue
+		}
+		c.authCachedMsg(data.(*ValidCasperSignMsg), key)
+	}
+}
+`
+	dst := filepath.Join(dir, "apply_block.go")
+	if os.WriteFile(dst, []byte(s), 0o644) == nil {
+		replace[src] = dst
+	}
 }
